@@ -209,6 +209,59 @@ const KEY_NAMES: [&str; 4] = ["lat", "io", "q", "late"];
 const PREFILL_VALUE: f64 = 0.5;
 /// yield point of the harness itself, right after a scheduled `render()` has returned
 const RENDER_DONE: &str = "h.render.done";
+/// yield point of the harness itself, right before a scheduled `render()` is called: together with `RENDER_DONE` it
+/// delimits the grants of one render in the trace (which drain pass a failed detach CAS belongs to)
+const RENDER_BEGIN: &str = "h.render.begin";
+/// id of the known finding "a render whose drain's detach CAS failed misses completed record() calls"
+const K2_ID: &str = "K-C07-K2";
+
+/// is the finding id listed in known_findings.json? (read at run time; an oracle failure for a finding that is not listed
+/// there would be reported as a new violation — the reproduction is always counted in the distribution table)
+fn known_has(id: &str) -> bool {
+    let p = concat!(env!("CARGO_MANIFEST_DIR"), "/../known_findings.json");
+    std::fs::read_to_string(p).map(|s| s.contains(&format!("\"{}\"", id))).unwrap_or(false)
+}
+
+/// K2 (Lean: `C07.conc_render_can_miss_completed_record`, `C05.failed_detach_delivers_nothing_and_loses_nothing`): per
+/// scheduled render — (thread, how many renders of that thread came before it) — the keys whose bucket's detach CAS
+/// FAILED inside that render's drain pass. Read off the trace alone: a `bkt.clear.cas` grant of the rendering thread,
+/// between its `h.render.begin` and `h.render.done` grants, after which the thread's next point is not
+/// `bkt.clear.quiesced` (the CAS failed: `clear_with` returned without draining); the key is that of a recording thread
+/// whose hand-over CAS (`bkt.push.cas_new`, won: its next point is the claim in the new block) was granted between that
+/// drain's tail load and its CAS — the only way the tail of a bucket can change under a drain that holds the
+/// distributions lock.
+fn k2_failed_detach_keys(spec: &Spec, tr: &[(usize, &'static str)]) -> std::collections::HashMap<(usize, usize), Vec<usize>> {
+    let next_of = |gi: usize, t: usize| tr[gi + 1..].iter().find(|(t2, _)| *t2 == t).map(|x| x.1);
+    let key_of = |t: usize| match spec.roles.get(t) {
+        Some(Role::Recorder { key, .. }) | Some(Role::Registrar { key, .. }) => Some(*key),
+        _ => None,
+    };
+    let mut res: std::collections::HashMap<(usize, usize), Vec<usize>> = Default::default();
+    let mut nth = vec![0usize; spec.roles.len()];
+    let mut inside = vec![false; spec.roles.len()];
+    for (gi, (t, id)) in tr.iter().enumerate() {
+        match *id {
+            RENDER_BEGIN => inside[*t] = true,
+            RENDER_DONE => {
+                inside[*t] = false;
+                nth[*t] += 1;
+            }
+            "bkt.clear.cas" if inside[*t] && next_of(gi, *t) != Some("bkt.clear.quiesced") => {
+                // the drain's tail load is the rendering thread's previous grant
+                let Some(l) = tr[..gi].iter().rposition(|(t2, _)| t2 == t) else { continue };
+                for (gu, (u, idu)) in tr.iter().enumerate().take(gi).skip(l + 1) {
+                    if *idu == "bkt.push.cas_new" && next_of(gu, *u) == Some("blk.push.claim") {
+                        if let Some(k) = key_of(*u) {
+                            res.entry((*t, nth[*t])).or_default().push(k);
+                        }
+                    }
+                }
+            }
+            _ => {}
+        }
+    }
+    res
+}
 /// block size of the bucket (Generated.bucket_block_size, C05.src_bucket_shape)
 const BLOCK: usize = 64;
 /// a scheduled run that makes no progress for this long is given up (ordinary runs take milliseconds)
@@ -373,6 +426,9 @@ fn build_scene(spec: &Spec) -> (Vec<Box<dyn FnOnce() + Send + 'static>>, Arc<Sha
                 bodies.push(Box::new(move || {
                     for is_render in calls {
                         if is_render {
+                            // marker grant: the grants of this render (its drain pass included) lie between this point and
+                            // the RENDER_DONE point below (no model step: the driver takes non-bucket points as no-ops)
+                            metrics::verif::point(RENDER_BEGIN);
                             let s0 = sh.seq.fetch_add(1, Ordering::SeqCst);
                             let lo: Vec<u64> = sh.done.iter().map(|a| a.load(Ordering::SeqCst)).collect();
                             let text = sh.handle.render();
@@ -419,7 +475,7 @@ fn k1_stragglers(tr: &[(usize, &'static str)]) -> u64 {
     for (gi, (t, id)) in tr.iter().enumerate() {
         match *id {
             "bkt.push.load_tail" => loaded[*t] = Some(gi),
-            "bkt.clear.load_tail" => clears.push(gi),
+            "bkt.clear.cas" => clears.push(gi),
             "blk.push.claim" => {
                 if let Some(l) = loaded[*t] {
                     if clears.iter().any(|c| *c > l && *c < gi) {
@@ -505,7 +561,16 @@ fn judge_completed(out: &mut Out, spec: &Spec, sh: &Shared, run: &crate::sched::
     let mut renders = sh.renders.lock().unwrap().clone();
     renders.sort_by_key(|r| r.1);
     let mut parsed: Vec<(usize, u64, u64, Vec<(u64, f64)>)> = vec![];
+    // K2: renders whose drain pass had a failed detach CAS on a key's bucket (read off the trace)
+    let k2_keys = k2_failed_detach_keys(spec, &run.trace);
+    if !k2_keys.is_empty() {
+        out.count("concurrent.runs-with-a-failed-detach-inside-a-render's-drain");
+    }
+    let mut k2_witness: Option<String> = None;
+    let mut nth_render = vec![0usize; spec.roles.len()];
     for (t, s0, lo, text, hi, s1) in &renders {
+        let excused: Vec<usize> = k2_keys.get(&(*t, nth_render[*t])).cloned().unwrap_or_default();
+        nth_render[*t] += 1;
         let c = match counts_of(text) {
             Ok(c) => c,
             Err(e) => {
@@ -516,7 +581,18 @@ fn judge_completed(out: &mut Out, spec: &Spec, sh: &Shared, run: &crate::sched::
         for k in 0..nk {
             // every record() that had returned before this render began is in it (up to the known stragglers);
             // nothing is in it that had not at least begun when it ended
-            if c[k].0 + allowance < lo[k] {
+            if c[k].0 + allowance < lo[k] && excused.contains(&k) {
+                // K2: the drain pass of THIS render failed to detach THIS key's bucket (a record() handed the tail over
+                // between the drain's tail load and its CAS): the pass folded nothing for the key, the render shows what
+                // the distribution held before. Nothing is lost (checked below: the count after the run is complete).
+                out.count("concurrent.K2:render-misses-completed-records(failed-detach-in-its-drain)");
+                if k2_witness.is_none() {
+                    k2_witness = Some(format!(
+                        "key {} thread {}: shows {} but {} record() calls had returned before it began (K1 stragglers in the trace: {}); spec {:?} trace {:?}",
+                        KEY_NAMES[k], t, c[k].0, lo[k], allowance, spec, run.trace
+                    ));
+                }
+            } else if c[k].0 + allowance < lo[k] {
                 out.oracle_fail(
                     "a render() concurrent with record()/render()/run_upkeep() misses samples whose record() had returned before it started [no-known-signature]",
                     &format!(
@@ -535,6 +611,16 @@ fn judge_completed(out: &mut Out, spec: &Spec, sh: &Shared, run: &crate::sched::
             }
         }
         parsed.push((*t, *s0, *s1, c));
+    }
+    if let Some(w) = &k2_witness {
+        // reported as an oracle failure only when the finding is listed (known_findings.json read at run time); the
+        // reproduction is counted either way
+        if known_has(K2_ID) {
+            out.oracle_fail(
+                "K-C07-K2: a render() whose drain pass failed to detach the bucket (a record() installed a new tail block between the drain's tail load and its compare-exchange) misses samples whose record() had returned before it started; they stay pending",
+                w,
+            );
+        }
     }
     // _count never goes back: a render that began after another one ended shows at least as much
     for a in &parsed {
@@ -662,6 +748,33 @@ pub fn run_concurrent(cfg: &Cfg, out: &mut Out) {
                     Role::Drainer { calls: vec![false] },
                 ],
             }
+        } else if i == 19 || i == 21 {
+            // corpus: the witness of `C07.conc_render_can_miss_completed_record` (K-C07-K2) replayed on the real exporter,
+            // block size 64: 64 samples recorded (their record() calls have returned) fill the tail block; the drain pass
+            // of a render()/run_upkeep() loads the tail and is parked at its detach CAS; a record() finds the block full,
+            // installs a new tail block and returns; the drain's CAS fails and the pass folds nothing.
+            // i == 19: the pass belongs to a render() — it shows _count 0 although 64 record() calls had returned before
+            // it began; the second render shows all 65. i == 21: the pass is a run_upkeep(), the render after it on the
+            // same thread drains normally and shows all 65 (no shortfall: nothing may be excused).
+            Spec {
+                buckets: false,
+                nkeys: 1,
+                prefill: vec![64],
+                roles: vec![Role::Recorder { key: 0, calls: vec![(1.0, 1)] }, Role::Drainer { calls: vec![i == 19, true] }],
+            }
+        } else if i == 20 {
+            // the same through a scene with TWO keys (not replayed on the one-key model): only the key whose bucket's
+            // detach failed may fall short in that render
+            Spec {
+                buckets: true,
+                nkeys: 2,
+                prefill: vec![64, 64],
+                roles: vec![
+                    Role::Recorder { key: 0, calls: vec![(1.0, 1)] },
+                    Role::Recorder { key: 1, calls: vec![(2.0, 1)] },
+                    Role::Drainer { calls: vec![true, true] },
+                ],
+            }
         } else {
             random_spec(&mut r)
         };
@@ -677,7 +790,9 @@ pub fn run_concurrent(cfg: &Cfg, out: &mut Out) {
         let mut sch = vec![];
         if inside {
             let nrec = nt - 1;
-            sch.extend(vec![nt - 1; 2 + (i % 3)]); // the drainer: start, tail load + detach CAS, (quiesced check, read)
+            // the drainer: start, (the render's begin marker,) tail load, detach CAS, (quiesced check, read)
+            let first_is_render = matches!(spec.roles.last(), Some(Role::Drainer { calls }) if calls.first() == Some(&true));
+            sch.extend(vec![nt - 1; 3 + (i % 3) + first_is_render as usize]);
             for t in 0..nrec {
                 sch.extend(vec![t; 12]); // the recorders run to completion inside the drain pass
             }
@@ -686,8 +801,26 @@ pub fn run_concurrent(cfg: &Cfg, out: &mut Out) {
         if i == 18 && !degraded {
             // starts; recorder 0 completes (tail load, first-block CAS, claim, publish, generation bump); recorder 1 loads
             // the tail; the drain pass detaches, checks, reads, ends; recorder 1 claims and publishes in the detached block
-            sch.extend([0, 1, 2, 0, 0, 0, 0, 0, 1, 2, 2, 2, 2, 1, 1, 1]);
+            sch.extend([0, 1, 2, 0, 0, 0, 0, 0, 1, 2, 2, 2, 2, 2, 1, 1, 1]);
             out.count("concurrent.corpus:K-C07-K1-witness");
+        }
+        if (i == 19 || i == 21) && !degraded {
+            // drainer: start, (render's begin marker,) tail load → parked at `bkt.clear.cas`; the recorder runs to completion
+            // (start, tail load, claim on the full block, hand-over CAS, claim, publish, generation bump); then the drainer
+            sch.extend(vec![1; if i == 19 { 3 } else { 2 }]);
+            sch.extend(vec![0; 8]);
+            sch.extend(vec![1; 60]);
+            out.count("concurrent.corpus:K-C07-K2-witness(failed-detach)");
+        }
+        if i == 20 && !degraded {
+            // the drain visits the two keys in registry order; park the drainer at the FIRST key's detach CAS and let both
+            // recorders hand over: the first key's detach fails (whichever key that is), the second key's drain starts
+            // only afterwards and succeeds
+            sch.extend(vec![2; 3]);
+            sch.extend(vec![0; 8]);
+            sch.extend(vec![1; 8]);
+            sch.extend(vec![2; 80]);
+            out.count("concurrent.corpus:K-C07-K2-two-keys");
         }
         if targeted {
             let nrec = nt - 1;
